@@ -104,12 +104,30 @@ func PersistOpen(sb *zap.SegmentBase) (*zap.Segment, string, error) {
 	return s.(*zap.Segment), path, nil
 }
 
-// Merge merges segments into a fresh path with an explicit chunk mode.
+// CountReporter is a StatsReporter that adds up what it is told.
+type CountReporter struct{ N uint64 }
+
+func (r *CountReporter) ReportBytesWritten(n uint64) { atomic.AddUint64(&r.N, n) }
+
+var mergeCalls uint64
+
+// Merge merges segments into a fresh path with an explicit chunk mode.  Callers alternate between a
+// nil and a counting StatsReporter, and - when the mode is the default one - between the public
+// plugin method (Merge of the segment API) and the package's mergeSegmentBases.
 func Merge(segs []segment.Segment, drops []*roaring.Bitmap, mode uint32) (maps [][]uint64, size uint64, path string, err error) {
 	path = TmpPath("m")
+	k := atomic.AddUint64(&mergeCalls, 1)
+	var rep segment.StatsReporter
+	if k%2 == 0 {
+		rep = &CountReporter{}
+	}
 	err = safely("Merge", func() error {
 		var e error
-		maps, size, e = zap.VerifMerge(segs, drops, path, mode, nil, nil)
+		if mode == zap.DefaultChunkMode && k%4 < 2 {
+			maps, size, e = Plugin.Merge(segs, drops, path, nil, rep)
+		} else {
+			maps, size, e = zap.VerifMerge(segs, drops, path, mode, nil, rep)
+		}
 		return e
 	})
 	return
